@@ -111,6 +111,7 @@ type Session struct {
 	trafficPattern *appctlpb.TrafficPattern
 
 	ready          chan struct{} // indicate the session is ready to use
+	firstInputDone chan struct{} // closed after the first received segment has been processed
 	closeRequested atomic.Bool   // the session is being closed or has been closed
 	closedChan     chan struct{} // indicate the session is closed
 	readDeadline   atomic.Int64  // read deadline, in microseconds since Unix epoch
@@ -139,6 +140,8 @@ type Session struct {
 	rttStat            *congestion.RTTStats
 	cubicSendAlgorithm *congestion.CubicSendAlgorithm
 	remoteWindowSize   atomic.Uint32
+
+	firstInputOnce sync.Once
 
 	wg    sync.WaitGroup
 	rLock sync.Mutex // serialize application read
@@ -191,6 +194,7 @@ func newSessionWithServerUserPolicy(
 		pendingServerUserPolicies: pendingPolicies,
 		trafficPattern:            trafficPattern,
 		ready:                     make(chan struct{}),
+		firstInputDone:            make(chan struct{}),
 		closedChan:                make(chan struct{}),
 		inputErr:                  make(chan error),
 		outputErr:                 make(chan error),
@@ -494,6 +498,19 @@ func (s *Session) ToSessionInfo() *appctlpb.SessionInfo {
 	return info
 }
 
+// waitFirstInput blocks until the first received segment of this session has
+// been processed, or the session or the underlay is closed. A new server
+// session is handed to Accept() only after that, so that the user identity,
+// per user metrics and the open session response are in place before the
+// application can read or write.
+func (s *Session) waitFirstInput(underlayDone <-chan struct{}) {
+	select {
+	case <-s.firstInputDone:
+	case <-s.closedChan:
+	case <-underlayDone:
+	}
+}
+
 func (s *Session) isState(target sessionState) bool {
 	return sessionState(s.state.Load()) == target
 }
@@ -711,7 +728,9 @@ func (s *Session) runInputLoop(ctx context.Context) error {
 			return nil
 		case seg := <-s.recvChan:
 			verifPoint(4)
-			if err := s.input(seg); err != nil {
+			err := s.input(seg)
+			s.firstInputOnce.Do(func() { close(s.firstInputDone) })
+			if err != nil {
 				err = fmt.Errorf("input() failed: %w", err)
 				log.Debugf("%v %v", s, err)
 				if s.inputHasErr.CompareAndSwap(false, true) {
